@@ -75,6 +75,9 @@ func (s *State) clone() *State {
 // heap returns the current term of a heap, declaring its initial version on
 // first use.
 func (ex *Exec) heap(st *State, name, sort string) Term {
+	if ex.readLog != nil {
+		ex.readLog[name] = true
+	}
 	if t, ok := st.heaps[name]; ok {
 		return t
 	}
